@@ -16,9 +16,12 @@ inline int point_code(const char *id) {
         {"m_try", 20},  {"m_sub", 21},  {"m_pub", 22},  {"m_unlock", 23}, {"m_bq", 24},  {"cs", 25},
         {"step", 30},   {"busy_x", 40}, {"busy_s", 41}, {"sf_dec", 50},   {"sf_sub", 51},
         {"p_lock", 60}, {"p_wait", 61}, {"p_join", 62}, {"q_lock", 70},
+        {"p_peek", 63},
         {"q_res", 71},  {"q_wait", 72},
+        {"q_res", 71},  {"q_wait", 72}, {"q_destroy", 73},
         {"busy_g", 42},
         {"sf_set", 52}, {"sf_clr", 53}, {"sf_inc", 54},
+        {"busy_n", 43},
     };
     for (auto &p : tbl)
         if (!std::strcmp(p.first, id)) return p.second;
